@@ -350,7 +350,8 @@ struct ValueFlowAnalyzer : Analyzer {
             const std::string opName(inc ? "incremented" : "decremented");
             if (d == Direction::Reverse)
                 inc = !inc;
-            value->intvalue += (inc ? 1 : -1);
+            // wrap around instead of overflowing: the value may be at the end of the bigint range
+            value->intvalue = static_cast<MathLib::bigint>(static_cast<MathLib::biguint>(value->intvalue) + (inc ? 1ULL : ~0ULL));
 
             /* Truncate value */
             const ValueType *dst = tok->valueType();
